@@ -428,6 +428,9 @@ func (p DevUpgradeImageAnsPayload) MarshalBinary() ([]byte, error) {
 	b[0] = uint8(p.Status.UpImageStatus) & 0x3
 
 	if p.Status.IsFirmwareImageValid() {
+		if p.nextFirmwareVersion == nil {
+			return nil, errors.New("lorawan/applayer/firmwaremanagement: nextFirmwareVersion must be set when UpImageStatus == 3")
+		}
 		binary.LittleEndian.PutUint32(b[1:5], *p.nextFirmwareVersion)
 	}
 
